@@ -80,6 +80,16 @@ func checkCmd(args []string) int {
 	case "C12":
 		cr.CheckDeterminism()
 		return cr.Finish("proof", checkerCmd, append(commonTrusted, "the structural order-independence rules of engine/vc/determinism.go"), "one obligation per nondeterminism source (map range, maps.Keys, environment/clock/random read, goroutine/select) in every function reachable from the generator entry points; each map range must fit an order-independence rule")
+	case "C14":
+		entries := vc.FixtureCorpus(*repo, "get_params", "router", "security_jwt_apikey_query", "response_header", "response_component", "json", "request_body")
+		if *tier != "quick" {
+			entries = vc.FixtureCorpus(*repo)
+			entries = append(entries, vc.RouteCorpus(corpusDir, "quick", seed)...)
+			entries = append(entries, vc.SecurityCorpus(corpusDir, "quick")...)
+			entries = append(entries, vc.CorsCorpus(corpusDir, "quick")...)
+		}
+		cr.CheckEmittedSafety(entries)
+		return cr.Finish("proof", checkerCmd, commonTrusted, "one obligation per instruction that can panic and per responder clause (exactly one response) in every server-side function of every corpus package; all requests and values")
 	case "C15":
 		cr.CheckGeneratorSafety(os.Getenv("GOAGVC_RECORD") != "")
 		return cr.Finish("proof", checkerCmd, commonTrusted, "one obligation per instruction that can panic (nil dereference, nil map write, index/slice bounds, failed type assertion, explicit panic, nil func/interface call) and per thin-contract clause (requires at call sites, ensures at returns) in every function of goag, generator, specification and cmd/goag; all inputs; obligations listed in baseline/C15-unproved.json are not claimed")
